@@ -297,6 +297,14 @@ def _convert_getelementptr(
     )
 
 
+def _escape_llvm_string(s: str) -> str:
+    """Escape a string for use inside a double-quoted LLVM IR string literal."""
+    return "".join(
+        chr(b) if 32 <= b < 127 and chr(b) not in '"\\' else f"\\{b:02X}"
+        for b in s.encode("utf-8")
+    )
+
+
 def _convert_inline_asm(
     op: llvm.InlineAsmOp, builder: ir.IRBuilder, val_map: dict[SSAValue, ir.Value]
 ):
@@ -305,8 +313,8 @@ def _convert_inline_asm(
     ftype = ir.FunctionType(ret_type, input_types)
     asm = ir.InlineAsm(
         ftype,
-        op.asm_string.data,
-        op.constraints.data,
+        _escape_llvm_string(op.asm_string.data),
+        _escape_llvm_string(op.constraints.data),
         side_effect=op.has_side_effects is not None,
     )
     args = [val_map[arg] for arg in op.operands_]
